@@ -124,6 +124,7 @@ ITEMS['Font::widths'] = {
 }
 
 UNIT = {
+ 'rlimit': 60,   # headroom: the proof needs < 1/4 of this (checked with the half-rlimit stability run)
  'name': 'fontwidths',
  'doc': 'Font::widths: /W array of CID fonts (both group forms, /DW elsewhere), /FirstChar+/Widths of simple fonts, Type0 delegation',
  'timeout': 900,
